@@ -23,7 +23,9 @@ namespace Vector {
 				if (tmp == ObjectSignature) {
 					signature = tmp;
 				} else {
-					if (is.eof()) {
+					/* also leave when nothing (or too little) was read although eof is not set: a stream that
+					 * has failed or was aborted delivers no data, the search would never end */
+					if (is.eof() || (is.gcount() < static_cast<std::streamsize>(sizeof(tmp)))) {
 						throw Exception("ObjectHeaderBase::read(): End of File.");
 					}
 
